@@ -255,6 +255,11 @@ func (fr *Frame) callFunc(b *ssa.BasicBlock, f *ssa.Function, c *ssa.CallCommon,
 	if strings.HasPrefix(name, "verif_all[") {
 		return fr.quantifierAll(c, args, st, reach)
 	}
+	if strings.HasPrefix(name, "verif_chclosed[") {
+		if v, ok := fr.ghostPredicate("verif_chclosed", args, st); ok {
+			return v
+		}
+	}
 	if f.Pkg != nil && strings.HasPrefix(name, "verif_") {
 		if v, ok := fr.ghostPredicate(name, args, st); ok {
 			return v
